@@ -220,10 +220,98 @@ class Prop:
     def canon(self, case, obs):
         return obs
 
-    # ---- Spec oracle (python mirror of Spec/TimersSpec.v), judging the implementation's observations
+    # ---- Spec oracle: the property text applied to the implementation's
+    # observations (python mirror of Spec/TimersSpec.v).  It follows virtual
+    # time and what is waiting in the socket, nothing of the FSM.
     def oracle(self, c, obs):
         if obs == [-1]:
             return 'panic in the connection task'
+        me = 4 if c['role'] == A else 5
+        due = lambda s: s == [2] or s == [1, 0] or s == [3]
+        absd = lambda s, t: (t + s[1]) if s[0] == 1 else (t if s[0] == 2 else None)
+        t = 0
+        queue = []
+        eof = False
+        close_tx, close_pending, close_maybe = True, False, False
+        h = None                # hold time in force, known once an OPEN has been accepted
+        prev = obs[0]
+        if c['lhold'] != 0 and prev[me] == 3 and prev[0] != [1, 240]:
+            return 'start: no large hold timer while waiting for the OPEN'
+        for k, (e, o) in enumerate(zip(c['evs'], obs[1:])):
+            live_before = prev[3] == 1
+            st_before, st_after = prev[me], o[me]
+            hold_b, ka_b, hold_a, ka_a, res = prev[0], prev[1], o[0], o[1], o[2]
+            kind = e[0]
+            reading = False
+            if not live_before:
+                prev = o
+                continue
+            if kind == 'tick':
+                t += e[1]
+            elif kind == 'arrive':
+                if not eof: queue += e[1]
+            elif kind == 'fin':
+                eof = True
+            elif kind == 'close':
+                if close_tx: close_tx, close_pending = False, True
+            elif kind == 'other':
+                if st_before != 0 and st_after == 0: close_maybe = True
+            elif kind == 'select':
+                timer_res = bool(res) and res[0] == [0]
+                if close_pending or close_maybe:
+                    close_pending = False
+                    if timer_res and h == 0:
+                        return 'step %d: hold-timer SessionDown with negotiated hold time 0' % k
+                elif due(hold_b):
+                    # (E2) once nothing was received for the hold time the session is torn down
+                    if st_before in (3, 4, 5) and not timer_res:
+                        return 'step %d: hold timer due but the session was not torn down for hold-timer expiry' % k
+                else:
+                    # (E1) ... and only then
+                    if timer_res:
+                        return 'step %d: hold-timer SessionDown although the hold deadline had not been reached' % k
+                    if due(ka_b):
+                        # (K) a keepalive timer that fires is re-armed with a third of the hold time
+                        if st_before in (4, 5) and h and o[3] == 1 and ka_a != [1, h // 3]:
+                            return 'step %d: keepalive timer fired and was not re-armed with hold/3 = %d: %s' % (k, h // 3, ka_a)
+                    else:
+                        reading = True
+            # what a reading select must have done
+            rearm = False
+            if reading and queue:
+                its, queue = queue, []
+                if st_before == 3 and its[0][0] == 'msg' and its[0][1][0] == 'open' and st_after in (4, 5) :
+                    h = min(c['lhold'], its[0][1][3])
+                rearm_kinds = [i for i in its if i[0] == 'loop' or i[1][0] in ('ka', 'update', 'open')]
+                killers = [i for i in its if i[0] == 'msg' and i[1][0] in ('notif', 'refresh')]
+                if o[3] == 1 and st_after in (4, 5) and h is not None:
+                    rearm = bool(rearm_kinds)
+                    if h > 0 and rearm_kinds and not killers:
+                        # (N)/(R1) every KEEPALIVE or UPDATE received re-arms the hold timer with the negotiated value
+                        last_is_plain = True
+                        if hold_a != [1, h]:
+                            return 'step %d: KEEPALIVE/UPDATE/OPEN received but hold timer is %s, not re-armed to %d' % (k, hold_a, h)
+            # (R2) ... and nothing else does
+            if o[3] == 1 and st_before in (4, 5) and st_after in (4, 5) and h:
+                # an overdue timer's deadline is only known to lie in the past
+                db = absd(hold_b, t - (e[1] if kind == 'tick' else 0))
+                da = absd(hold_a, t) if hold_a[0] == 1 else None
+                if db is not None and da is not None and da > db and not rearm:
+                    return 'step %d: hold deadline moved from %d to %d by %s, not by a received KEEPALIVE/UPDATE' % (k, db, da, kind)
+            # timers that must (not) be running
+            if o[3] == 1 and st_after in (4, 5) and h is not None:
+                if h == 0:
+                    # (Z) zero disables both timers after the OPEN exchange
+                    if hold_a != [0] or ka_a != [0]:
+                        return 'step %d: negotiated hold time 0 but a timer is armed (hold %s, keepalive %s)' % (k, hold_a, ka_a)
+                else:
+                    if hold_a[0] not in (1, 2) or (hold_a[0] == 1 and hold_a[1] > h):
+                        return 'step %d: hold time %d in force but hold timer is %s' % (k, h, hold_a)
+                    if ka_a[0] not in (1, 2) or (ka_a[0] == 1 and ka_a[1] > h // 3):
+                        return 'step %d: keepalive interval %d in force but keepalive timer is %s' % (k, h // 3, ka_a)
+            if bool(res) and res[0] == [0] and h == 0 and st_before in (4, 5):
+                return 'step %d: hold-timer SessionDown with negotiated hold time 0' % k
+            prev = o
         return None
 
     def in_known_class(self, kf, c, obs, why):
